@@ -125,7 +125,14 @@ def runIc10 (j : Json) : Except String Json := do
           | .ok a => (match (a[0]!).getNat?, (a[1]!).getInt? with | .ok x, .ok y => some (x, y) | _, _ => none)
           | .error _ => none)
       | .error _ => []
-    let (s, m, n) := runMon (envF seed pool) pp.prog steps initSt { expect := expect } 0
+    -- optional preloaded stack cells: [[address, float], …]
+    let memInit : List (Nat × Float) := match j.getObjVal? "mem" with
+      | .ok mj => ((mj.getArr?).toOption.getD #[]).toList.filterMap (fun p => match p.getArr? with
+          | .ok a => (match (a[0]!).getNat?, floatOfJson (a[1]!) with | .ok x, .ok y => some (x, y) | _, _ => none)
+          | .error _ => none)
+      | .error _ => []
+    let st0 : St PReg Float := { initSt with mem := fun a => match memInit.find? (fun (q : Nat × Float) => q.1 == a) with | some (_, v) => v | none => 0.0 }
+    let (s, m, n) := runMon (envF seed pool) pp.prog steps st0 { expect := expect } 0
     pure (Json.mkObj [
       ("trace", Json.arr (s.trace.reverse.map jEff).toArray),
       ("halted", Json.bool s.halted), ("pc", Json.num (JsonNumber.fromNat s.pc)), ("steps", Json.num (JsonNumber.fromNat n)),
